@@ -43,7 +43,7 @@ def run_case(case):
     nz = len(St["z"])
     prec = "double" if rng.random() < 0.75 else "single"
     tol = solve.tol(prec, St["G"], cr=St["cr"])
-    levels, lkind = solve.pick_levels(rng, nz, str(rng.choice(["top", "scalar", "few"])))
+    levels, lkind = solve.pick_levels(rng, nz, str(rng.choice(["top", "scalar", "few", "shuffled"])))
     nl = solve.nlev(levels)
     desc = gen.describe(St)
 
